@@ -157,6 +157,21 @@ def generate(rng, n, tier="quick"):
         case["id"] = "%s-hugeidx%02d" % (ID, d)
         d += 1
         out.append((case, {"mode": "bigidx", "oracle": ["any", "an index no machine word holds: the crate's InvalidJsonIndex is compared with the model"]}))
+    # the family of the Lean theorem C01.parent_path_in_with_reads_the_outer_scope: L ++ {{#with v}}{{../x}}{{/with}} ++ R for every truthy
+    # data.v (which holds its OWN x) and every data.x: escape(text of data.x) – the field of the scope around the block (exact)
+    from .C03 import thm_left, thm_right
+    from .common import escape_of
+    tr = rng.fork("thmup")
+    for k in range(60 if tier == "quick" else 1500):
+        r = tr.fork(k)
+        L, R = thm_left(r), thm_right(r)
+        val, txt = r.pick([("<b>&\"'`=", "<b>&\"'`="), ("outer", "outer"), ("", ""), (7, "7"), (-2, "-2"), (True, "true"), (False, "false"), (None, ""), ("a\nb", "a\nb"),
+                           ([1, "a"], "[1, a]"), ({"k": 1}, "[object]")])
+        v = r.pick([{"x": "INNER"}, {"x": "INNER", "k": 1}, [0], "str", 5, True, {"y": 1}])
+        escn = r.pick(["none", "mark", "html"])
+        case = session({"escape": escn}, [("main", L + "{{#with v}}{{../x}}{{/with}}" + R)], {"api": "render", "name": "main"}, {"v": v, "x": val})
+        case["id"] = "%s-thmup%04d" % (ID, k)
+        out.append((case, {"mode": "thmup", "oracle": ["must", L + escape_of(escn)(txt) + R]}))
     return out
 
 
